@@ -190,6 +190,28 @@ fn gen_case(rng: &mut Rng, max_n: u64) -> String {
             sets.push(s);
         }
     }
+    // lagging namespaces around a badly signed change: the heads plus one (transitive) ancestor of it, and the
+    // heads above it alone — all with the same closure
+    for (i, c) in chs.iter().enumerate() {
+        if !c.forged {
+            continue;
+        }
+        let anc: Vec<usize> = closure(&chs, &[Some(i)]).into_iter().filter(|a| *a != i).collect();
+        for a in anc.iter().rev().take(3) {
+            let mut s: Vec<Option<usize>> = hs.iter().map(|h| Some(*h)).collect();
+            if rng.bool() { s.push(Some(*a)) } else { s.insert(0, Some(*a)) }
+            sets.push(s);
+        }
+        let above: Vec<Option<usize>> = hs.iter().filter(|h| closure(&chs, &[Some(**h)]).contains(&i)).map(|h| Some(*h)).collect();
+        if !above.is_empty() {
+            for a in anc.iter().take(2) {
+                let mut s = above.clone();
+                s.push(Some(*a));
+                sets.push(s);
+            }
+            sets.push(above);
+        }
+    }
     if rng.chance(1, 10) {
         sets.push(vec![None]);
     }
